@@ -52,8 +52,9 @@ def run(ctx):
         if "timed out" not in str(e):
             raise
         sp = None
-        ctx.violation("hang NUTS sqrt-target start-up", "NUTSChain::run on sum(ln sqrt(x) - x), started within one step of the boundary, did not return "
-                      "within 120 s (12 chains of 9 transitions take about a second): the sampler hangs on a NaN log-density / gradient",
+        ctx.violation("hang NUTS start-up probe", "NUTSChain::run did not return within 120 s on one of: sum(ln sqrt(x) - x) started within one step of the "
+                      "boundary; -|x| started at its cusp (finite density, NaN gradient); exp(-x) on x >= 0 started ON the boundary (28 short chains, "
+                      "about two seconds in all): the sampler hangs where no step size gives an acceptable trial point",
                       {"direction": "trace", "what": str(e)})
     if sp is not None:
         for p in sp["panics"]:
@@ -104,7 +105,7 @@ def run(ctx):
     ctx.selftest("trace: a move onto a zero-density state", not okc)
     ctx.cov["rule"] = ("MH.tla NeverToBadState over all 8^4 IEEE-kind tables and draw classes; AcceptKinds.tla: HMC accept rule and NUTS slice/divergence tests over "
                        "all kinds; traces: MH (library and 'wild' proposals producing inf/NaN) on half-line, box and sqrt targets in 1 and 3 dims (f32/f64), HMC "
-                       "with step sizes 0.3 .. 1e300 on the half-line, NUTS on NaN-region and divergent targets incl. overflowing step size, and with the start-up heuristic next to the boundary of a NaN-gradient (sqrt) target; "
+                       "with step sizes 0.3 .. 1e300 on the half-line, NUTS on NaN-region and divergent targets incl. overflowing step size, and with the start-up heuristic next to the boundary of a NaN-gradient (sqrt) target, at a cusp with NaN gradient and on the boundary of the support; "
                        "non-trivial = transitions whose candidate was refused")
     ctx.cov["exhaustive"] = False
 
